@@ -187,9 +187,9 @@ func (s *c10Store) drain() {
 }
 
 func (s *c10Store) close() {
+	defer os.RemoveAll(s.dir)
 	s.drain()
 	s.db.Close()
-	os.RemoveAll(s.dir)
 }
 
 func (s *c10Store) genesis() {
@@ -426,6 +426,20 @@ func c10(c *Ctx) {
 // set by the engine part: a register tx with isCandidate="yes" was packed and left that string in the account
 var c10OddFlagReachable = false
 
+// c10Guard turns a panic of the code under test that escaped a call site into a property-level failure
+// c10/panic/<site> with the ops issued so far as replay (instead of a dead harness).  Use with defer.
+func c10Guard(c *Ctx, what string, site *string, replay func() []string) {
+	if r := recover(); r != nil {
+		sig := "c10/panic/" + *site
+		c.Count("oracle:" + sig)
+		c10SigCount[sig]++
+		if c10SigCount[sig] > c10MaxPerSig {
+			return
+		}
+		c.Fail(sig, fmt.Sprintf("%s: the code under test panicked (%s): %v", what, *site, r), map[string]interface{}{"seed": c.Seed, "ops": replay()})
+	}
+}
+
 // at most c10MaxPerSig reports per signature, so that every defect class stays visible
 var c10SigCount = map[string]int{}
 
@@ -490,11 +504,14 @@ func c10Case(c *Ctx, caseNo int) {
 		c.Fail(sig, detail, map[string]interface{}{"case": caseNo, "seed": c.Seed, "ops": append([]string{}, replay...)})
 	}
 
+	site := "open"
+	defer c10Guard(c, fmt.Sprintf("case %d", caseNo), &site, func() []string { return append([]string{}, replay...) })
 	s2 := c10NewStore() // the store under correspondence (re-opened at random points)
 	s1 := c10NewStore() // reference: same ops, never re-opened
-	defer s1.close()
-	defer s2.close()
+	defer Safe(func() string { s1.close(); return "" })
+	defer Safe(func() string { s2.close(); return "" })
 	op(fmt.Sprintf("max %d", max), "ok")
+	site = "genesis"
 	s1.genesis()
 	s2.genesis()
 	op("genesis", "ok")
@@ -679,6 +696,7 @@ func c10Case(c *Ctx, caseNo int) {
 			toks = append(toks, fmt.Sprintf("x%d:%d", x.addr, x.votes))
 		}
 		line := fmt.Sprintf("blk %d %d %s", id, pid, strings.Join(toks, " "))
+		site = "ranking"
 		out2 := s2.apply(id, pid, chs, extra)
 		out1 := s1.apply(id, pid, chs, extra)
 		op(line, out2)
@@ -703,7 +721,7 @@ func c10Case(c *Ctx, caseNo int) {
 			c.Count("blk:" + firstWord(out2))
 			nb.tainted = true
 			if !malformed {
-				fail("c10/ranking-panic", fmt.Sprintf("case %d: %s => %s", caseNo, line, out2))
+				fail("c10/panic/ranking", fmt.Sprintf("case %d: SetBlock / AccountTrieDB.Put / CandidatesRanking: %s => %s", caseNo, line, out2))
 			}
 			return id
 		}
@@ -711,6 +729,7 @@ func c10Case(c *Ctx, caseNo int) {
 			return id
 		}
 		// ---------- direct oracle ----------
+		site = "view-read"
 		reg, flags := s2.registeredInView(id, universe)
 		for a := 1; a <= universe; a++ {
 			sh, ok := view[a]
@@ -723,6 +742,7 @@ func c10Case(c *Ctx, caseNo int) {
 			}
 		}
 		want := c10FullSort(reg, max)
+		site = "get-top"
 		got := c10FromStore(s2.db.GetCandidatesTop(s2.blocks[id].Hash()))
 		ref := c10FromStore(s1.db.GetCandidatesTop(s1.blocks[id].Hash()))
 		_ = out1
@@ -790,9 +810,13 @@ func c10Case(c *Ctx, caseNo int) {
 			depth++
 		}
 		c.Count(fmt.Sprintf("op:stable-promotes-%d-block(s)-in-one-call", depth))
+		site = "set-stable"
 		out2 := s2.setStable(id)
 		s1.setStable(id)
 		op(fmt.Sprintf("stable %d", id), out2)
+		if out2 == "panic" && !malformed {
+			fail("c10/panic/set-stable", fmt.Sprintf("case %d: SetStableBlock(%d) panicked", caseNo, id))
+		}
 		c.Count("op:stable")
 		var drop []int
 		for _, x := range ids {
@@ -809,12 +833,17 @@ func c10Case(c *Ctx, caseNo int) {
 	doReopen := func() {
 		ids = liveIDs()
 		drained := c.Rnd.Intn(4) != 0 // 1 in 4 restarts happens with writes still queued
+		site = "reopen"
 		s2.reopen(drained)
 		if !drained {
 			c.Count("op:reopen-with-pending-writes")
 		}
 		out := s2.showBlock(stable)
 		op("reopen", out)
+		if out == "panic" {
+			fail("c10/panic/get-top-after-reopen", fmt.Sprintf("case %d: after a clean re-open GetCandidatesTop(stable block %d) panics", caseNo, stable))
+		}
+		site = "get-top"
 		c.Count("op:reopen")
 		reopened = true
 		for _, x := range ids {
@@ -912,9 +941,14 @@ func c10Case(c *Ctx, caseNo int) {
 				}
 			}
 			id := kids[c.Rnd.Intn(len(kids))]
+			site = "crash-reopen"
 			out2 := s2.stableCrash(id)
 			s1.setStable(id)
 			op(fmt.Sprintf("stablecrash %d", id), out2)
+			if out2 == "panic" && !malformed {
+				fail("c10/panic/crash-reopen", fmt.Sprintf("case %d: SetStableBlock(%d) / start-up on the crash image panicked", caseNo, id))
+			}
+			site = "get-top"
 			c.Count("op:stablecrash(pointer moved, candidate list not flushed, restart)")
 			for _, x := range ids {
 				if x != id {
@@ -1016,19 +1050,33 @@ func c10EnginePart(c *Ctx) {
 		c10EngineRandomRun(c, i)
 	}
 	store.VerifSetMaxCandidateCount(prod)
-	for _, variant := range []string{"quiet", "transfer", "unregister-zero"} {
-		r := c10EngineScenario(variant)
+	for _, variant := range []string{"quiet", "transfer", "unregister-zero", "three-candidates", "fork"} {
+		r := c10EngineScenario(c, variant)
 		c.Count("engine:" + variant)
+		replay := map[string]interface{}{"variant": variant, "log": r.Log}
 		if r.SealOp == "" {
+			for _, pr := range r.Problems {
+				parts := strings.SplitN(pr, "|", 2)
+				c.Count("oracle:" + parts[0])
+				c.Fail(parts[0], "variant "+variant+": "+parts[1], replay)
+			}
 			c.Fail("c10/engine-scenario-broken", fmt.Sprintf("variant %s did not reach the snapshot block: %s / %v", variant, r.Insert, r.Log), nil)
 			continue
 		}
 		c.Op(r.SealOp, r.Deputies+" => "+r.Loadable)
-		replay := map[string]interface{}{"variant": variant, "log": r.Log}
-		detail := fmt.Sprintf("variant %s: top(parent)=%s votes in the parent's view=%s; snapshot block deputies=%s; NewTermRecord: %s; InsertBlock on the validating node: %s; restart of that node: %s",
+		detail := fmt.Sprintf("variant %s: top(parent)=%s votes in the parent's view=%s; deputies of the stored snapshot block=%s; NewTermRecord: %s; InsertBlock on the validating node: %s; restart of that node: %s",
 			variant, r.ParentTop, r.ParentVotes, r.Deputies, r.Loadable, r.Insert, r.Restart)
-		if r.Loadable != "ok" || strings.HasPrefix(r.Insert, "panic") || strings.HasPrefix(r.Restart, "panic") {
+		notLoadable := r.Loadable != "ok" || strings.HasPrefix(r.Insert, "panic") || strings.HasPrefix(r.Restart, "panic")
+		if notLoadable && variant == "transfer" {
 			c.Fail("c10/snapshot-deputies-not-loadable", detail, replay)
+		} else if notLoadable {
+			// only the transfer variant changes votes inside the snapshot block
+			c.Fail("c10/scenario-expectation-failed/"+variant, "the snapshot block of a scenario without vote changes is not loadable: "+detail, replay)
+		}
+		for _, pr := range r.Problems {
+			parts := strings.SplitN(pr, "|", 2)
+			c.Count("oracle:" + parts[0])
+			c.Fail(parts[0], "variant "+variant+": "+parts[1]+"; "+detail, replay)
 		}
 		if r.UnregisteredDeputy != "" {
 			c.Fail("c10/top-contains-unregistered", "engine, "+detail+"; "+r.UnregisteredDeputy, replay)
@@ -1040,6 +1088,8 @@ func c10EnginePart(c *Ctx) {
 // commitCandidates -> isCandidate uses strconv.ParseBool and panics on any other string.  AfterScan has no
 // caller in /repo (the WAL replay goes through BeansDB.After), so this is counted, not reported.
 func c10LatentAfterScan(c *Ctx) {
+	site := "latent-afterscan"
+	defer c10Guard(c, "AfterScan probe", &site, func() []string { return nil })
 	s := c10NewStore()
 	defer s.close()
 	acc := c10AcctData(c10Change{addr: 2, flag: 'o', votes: 30})
@@ -1057,13 +1107,15 @@ func c10LatentAfterScan(c *Ctx) {
 func c10DirectedPromote(c *Ctx) {
 	store.VerifSetMaxCandidateCount(2)
 	s2, s1 := c10NewStore(), c10NewStore()
-	defer s1.close()
-	defer s2.close()
+	defer Safe(func() string { s1.close(); return "" })
+	defer Safe(func() string { s2.close(); return "" })
 	var replay []string
 	op := func(line, out string) {
 		c.Op(line, out)
 		replay = append(replay, line+" => "+out)
 	}
+	site := "directed-promote"
+	defer c10Guard(c, "directed promote-3-then-reopen", &site, func() []string { return append([]string{}, replay...) })
 	op("max 2", "ok")
 	s1.genesis()
 	s2.genesis()
